@@ -6,6 +6,7 @@ pub mod s_intervals;
 pub mod tygen;
 pub mod s_dtype;
 pub mod s_hier;
+pub mod s_rules;
 
 use common::*;
 use std::io::{BufRead, Write};
@@ -19,6 +20,7 @@ fn streams() -> Vec<(&'static str, GenFn, EvalFn)> {
         ("dtype", s_dtype::gen, s_dtype::eval),
         ("hier", s_hier::gen_hier, s_hier::eval_hier),
         ("scope", s_hier::gen_scope, s_hier::eval_scope),
+        ("rules", s_rules::gen, s_rules::eval),
     ]
 }
 
@@ -30,6 +32,11 @@ pub fn main() {
     }
     let mode = args[1].as_str();
     let stream = args[2].as_str();
+    if mode == "dump" {
+        let v = match stream { "rules" => s_rules::dump_rules(), _ => { eprintln!("unknown dump {stream}"); std::process::exit(2) } };
+        println!("{}", v);
+        return;
+    }
     let mut seed: u64 = 1;
     let mut n: usize = 100;
     let mut tier = "quick".to_string();
@@ -77,7 +84,7 @@ pub fn main() {
         started.store(std::time::SystemTime::now().duration_since(std::time::UNIX_EPOCH).unwrap().as_secs(), std::sync::atomic::Ordering::Relaxed);
         let o = e(&case);
         started.store(0, std::sync::atomic::Ordering::Relaxed);
-        let line = serde_json::json!({"stream": stream, "case": case, "impl": o.imp, "oracle": o.oracle, "tags": o.tags});
+        let line = serde_json::json!({"stream": stream, "case": case, "impl": o.imp, "aux": o.aux, "oracle": o.oracle, "tags": o.tags});
         writeln!(out, "{}", line).unwrap();
         out.flush().unwrap();
     };
